@@ -11,6 +11,12 @@ def ssum(v: Seq(Real), n: Int) -> Real:
 
 
 @spec
+def elems(s: Seq(Str), n: Int) -> CSet:
+    """the set of the first n entries of s"""
+    return frozenset() if n <= 0 else (elems(s, n - 1) | frozenset([s[n - 1]]))
+
+
+@spec
 def repl(x: Real, n: Int) -> Seq(Real):
     """[x] * n"""
     return () if n <= 0 else repl(x, n - 1) + (x,)
